@@ -82,6 +82,19 @@ def gen_cases(kind, n, salt):
     elif kind == "msetdup":
         for i in range(n):
             cases.append(("msetdup", i, None, {"strategy": "auto", "lists": "on"}))
+    elif kind == "repeatstr":
+        # the same (from string, to string) pairs recur at several places of the two documents, next to renamed
+        # keys that go through the matcher: state shared between equal sub-comparisons would show
+        pool = ("ababb", "aaabbabb", "b", "bbb", "abab", "bab", "aabb", "bbaab", "a", "abba")
+        for i in range(n):
+            fs, ts = r.sample(pool, 3), r.sample(pool, 3)
+            ka, kb = r.sample(("p", "q", "u", "v"), 2), r.sample(("r", "s", "w", "x"), 2)
+            a = {"m": {ka[0]: fs[0], ka[1]: fs[1]}, "z": fs[r.randrange(2)], "y": [fs[2], fs[0]]}
+            b = {"m": {kb[0]: ts[0], kb[1]: ts[1]}, "z": ts[r.randrange(2)], "y": [ts[2], ts[0]]}
+            if r.random() < 0.3:
+                a["m"][r.choice(("p2", "q2"))] = fs[2]
+                b["m"][r.choice(("r2", "s2"))] = ts[2]
+            cases.append(("json", a, b, r.choice(docs.ALL_OPTS[:6])))
     elif kind in ("csv", "pyobj", "plist"):
         for i in range(n):
             cases.append((kind, i, None, r.choice(docs.ALL_OPTS)))
